@@ -212,14 +212,14 @@ fn handle(req: &Value) -> Value {
             fam.insert("ew".into(), json!(ew));
             fam.insert(
                 "fixed".into(),
-                json!({
-                    "inspect": nc::construct_inspect_fn_name().to_string(),
-                    "spawn_tokio": nc::construct_spawn_tokio_fn_name().to_string(),
-                    "results": nc::construct_results_name().to_string(),
-                    "handler": nc::construct_handler_name().to_string(),
-                    "value": nc::construct_internal_value_name().to_string(),
-                    "tb": nc::construct_thread_builder_fn_name().to_string(),
-                }),
+                json!([
+                    nc::construct_inspect_fn_name().to_string(),
+                    nc::construct_spawn_tokio_fn_name().to_string(),
+                    nc::construct_results_name().to_string(),
+                    nc::construct_handler_name().to_string(),
+                    nc::construct_internal_value_name().to_string(),
+                    nc::construct_thread_builder_fn_name().to_string(),
+                ]),
             );
             Value::Object(fam)
         }
@@ -264,6 +264,53 @@ fn handle(req: &Value) -> Value {
             }
             all.sort_by_key(|e| e["s1"].as_u64().unwrap());
             json!({"events": all})
+        }
+        "turns" => {
+            // Real threads take turns in the given global order [[thread, input index], ..] (1-based).
+            let inputs: Vec<(String, Value)> = req["inputs"]
+                .as_array()
+                .map(|a| a.iter().map(|x| (x["input"].as_str().unwrap_or("").to_string(), x["cfg"].clone())).collect())
+                .unwrap_or_default();
+            let order: Vec<(usize, usize)> = req["order"]
+                .as_array()
+                .map(|a| a.iter().map(|p| (p[0].as_u64().unwrap() as usize, p[1].as_u64().unwrap() as usize)).collect())
+                .unwrap_or_default();
+            let threads = order.iter().map(|p| p.0).max().unwrap_or(1);
+            let inputs = Arc::new(inputs);
+            let order = Arc::new(order);
+            let turn = Arc::new((std::sync::Mutex::new(0usize), std::sync::Condvar::new()));
+            let events = Arc::new(std::sync::Mutex::new(Vec::new()));
+            let hs: Vec<_> = (1..=threads)
+                .map(|t| {
+                    let (inputs, order, turn, events) = (inputs.clone(), order.clone(), turn.clone(), events.clone());
+                    std::thread::spawn(move || {
+                        for (k, (tt, i)) in order.iter().enumerate() {
+                            if *tt != t {
+                                continue;
+                            }
+                            let (m, cv) = &*turn;
+                            let mut g = m.lock().unwrap();
+                            while *g != k {
+                                g = cv.wait(g).unwrap();
+                            }
+                            let (inp, cfg) = &inputs[(*i - 1) % inputs.len()];
+                            let v = expand(inp, cfg, true);
+                            let h = match v["out"].as_str() {
+                                Some(o) => format!("{:016x}", fnv(o)),
+                                None => format!("E{:016x}", fnv(v["msg"].as_str().unwrap_or(""))),
+                            };
+                            events.lock().unwrap().push(json!({"ev":"x","t":t,"i":*i,"h":h}));
+                            *g += 1;
+                            cv.notify_all();
+                        }
+                    })
+                })
+                .collect();
+            for h in hs {
+                let _ = h.join();
+            }
+            let evs = events.lock().unwrap().clone();
+            json!({"events": evs})
         }
         "valid" => {
             // does this token text parse as Expr / Type ? (operand catalogue cross-check)
